@@ -48,6 +48,8 @@ def width_of(spec, variables) -> int:
         return width_of(spec[1], variables) + width_of(spec[2], variables)
     if op in ("zext", "sext"):
         return spec[1] + width_of(spec[2], variables)
+    if op == "noelim":
+        return width_of(spec[1], variables)
     if op == "ite":
         return width_of(spec[2], variables)
     raise SpecError(f"unknown op {op}")
@@ -146,6 +148,8 @@ def _src(spec, variables):
         return f"({a} if {c} else {b})", -1
     if op == "const":
         return str(spec[1] & ((1 << spec[2]) - 1)), spec[2]
+    if op == "noelim":  # the same value; for claripy: an annotation that keeps the node from being folded away
+        return _src(spec[1], variables)
     if op == "sconst":
         return repr(str(spec[1])), -1
     if op in ("sconcat", "sreplace", "substr") or op in STR_PRED:
@@ -296,6 +300,8 @@ def build_claripy(spec, variables, claripy):
         if w == -1:
             return claripy.StringS(spec[1], explicit_name=True)
         return claripy.BVS(spec[1], w, explicit_name=True)
+    if op == "noelim":
+        return build_claripy(spec[1], variables, claripy).annotate(claripy.annotation.SimplificationAvoidanceAnnotation())
     if op == "sconst":
         return claripy.StringV(str(spec[1]))
     if op == "sconcat":
@@ -407,6 +413,8 @@ def build_z3ref(spec, variables, ctx=None):
         if w == -1:
             return z3.String(spec[1], ctx)
         return z3.Bool(spec[1], ctx) if w == 0 else z3.BitVec(spec[1], w, ctx)
+    if op == "noelim":
+        return build_z3ref(spec[1], variables, ctx)
     if op == "sconst":
         return z3.StringVal(str(spec[1]), ctx)
     if op == "sconcat":
